@@ -91,19 +91,23 @@ impl PartialDate {
 macro_rules! impl_with_fallback_method {
     ($method_name:ident, ( $(with_day: $day:ident)? ) $component_type:ty) => {
         pub(crate) fn $method_name(&self, fallback: &$component_type) -> TemporalResult<Self> {
-            let era = if let Some(era) = self.era {
-                Some(era)
-            } else {
-                let era = fallback.era();
-                era.map(|e| {
-                    TinyAsciiStr::<19>::try_from_utf8(e.as_bytes())
-                        .map_err(|e| TemporalError::general(format!("{e}")))
-                })
-                .transpose()?
+            // NOTE: `year`, `era` and `eraYear` name the same quantity: when the record gives any
+            // of them the receiver supplies none (CalendarFieldKeysToIgnore), otherwise the receiver
+            // supplies its era and era year when its calendar has eras and its year when it has not.
+            let (year, era, era_year) = match (self.year, self.era, self.era_year) {
+                (None, None, None) => match fallback.era() {
+                    Some(era) => (
+                        None,
+                        Some(
+                            TinyAsciiStr::<19>::try_from_utf8(era.as_bytes())
+                                .map_err(|e| TemporalError::general(format!("{e}")))?,
+                        ),
+                        fallback.era_year(),
+                    ),
+                    None => (Some(fallback.year()), None, None),
+                },
+                given => given,
             };
-            let era_year = self
-                .era_year
-                .map_or_else(|| fallback.era_year(), |ey| Some(ey));
 
             let (month, month_code) = match (self.month, self.month_code) {
                 (Some(month), Some(mc)) => (Some(month), Some(mc)),
@@ -117,7 +121,7 @@ macro_rules! impl_with_fallback_method {
             };
             #[allow(clippy::needless_update)] {
                 Ok(Self {
-                    year: Some(self.year.unwrap_or(fallback.year())),
+                    year,
                     month,
                     month_code,
                     $($day: Some(self.day.unwrap_or(fallback.day().into())),)?
